@@ -99,5 +99,16 @@ P8 == {PCase("P8", <<F("o", Decl8, 0, 1)>>, <<v>>, <<Decl8>>, <<v>>, TRUE) : v \
       \cup {PCase("P8", <<F("a", Arr(Decl8), 0, 1)>>, <<SeqV(m)>>, <<Arr(Decl8)>>, <<SeqV(m)>>, TRUE) :
                m \in {<<ObjV("Tagged", <<Leaf("5"), Nil, Leaf("hello")>>), ObjV("Coded", <<Nil, Nil, Leaf("k1")>>), ObjV("Base8", <<Leaf("5")>>)>>,
                        <<ObjV("Coded", <<Leaf("5"), Leaf("7"), Leaf("k1")>>), ObjV("Tagged", <<Nil, Leaf("kind"), Nil>>)>>}}
-PolyCases == P1 \cup P2 \cup P3 \cup P4 \cup P5 \cup P6 \cup P7 \cup P8
+\* P9: a class in the MIDDLE of the chain that adds no member of its own (a marker class): Base9{b1} <- Mark9{} <- Deep9{z}.
+\* It is a class like any other: what is declared as Mark9 (or Base9) may hold a Deep9, which keeps its class and its member.
+PB9 == Obj("Base9", "tns", <<F("b1", Prim("Integer"), 0, 1)>>)
+PMk9 == Sub("Mark9", "tns", <<>>, PB9)
+PDp9 == Sub("Deep9", "tns", <<F("z", Prim("Integer"), 0, 1)>>, PMk9)
+DeclBase9 == [PB9 EXCEPT !.subs = <<PMk9, PDp9>>]
+DeclMark9 == [PMk9 EXCEPT !.subs = <<PDp9>>]
+Vals9 == {ObjV("Deep9", <<Leaf("5"), Leaf("7")>>), ObjV("Mark9", <<Leaf("5")>>), ObjV("Deep9", <<Nil, Leaf("7")>>)}
+P9 == {PCase("P9", <<F("o", d, 0, 1)>>, <<Send(d, v, poly)>>, <<d>>, <<v>>, poly) : d \in {DeclBase9, DeclMark9}, v \in Vals9, poly \in BOOLEAN}
+      \cup {PCase("P9", <<F("a", Arr(DeclMark9), 0, 1)>>, <<SeqV(<<ObjV("Mark9", <<Leaf("5")>>), ObjV("Deep9", <<Leaf("5"), Leaf("7")>>)>>)>>, <<Arr(DeclMark9)>>,
+                   <<SeqV(<<ObjV("Deep9", <<Nil, Leaf("7")>>)>>)>>, TRUE)}
+PolyCases == P1 \cup P2 \cup P3 \cup P4 \cup P5 \cup P6 \cup P7 \cup P8 \cup P9
 =============================================================================
